@@ -311,32 +311,44 @@ func (w *world) shutdown(how string) (candidate string) {
 	w.mu.Lock()
 	w.endAt = time.Now()
 	w.mu.Unlock()
-	closeDone := make(chan struct{})
 	if how == "cancel" {
 		w.cancel()
+		// Close is still required to wait for the helpers; let Run notice the cancellation first
+		mon.Quiesce()
 	}
-	go func() {
-		if how == "cancel" {
-			// Close is still required to wait for the helpers
-			select {
-			case err := <-w.runDone:
-				w.runDone <- err
+	// two overlapping Close calls: "Close returns only when all helper goroutines have finished"
+	// holds for every caller. Right after its Close returned each caller looks for goroutines that
+	// are still parked inside the limiter.
+	const nclose = 2
+	closeDone := make(chan []string, nclose)
+	for i := 0; i < nclose; i++ {
+		go func() {
+			w.rl.Close()
+			var left []string
+			for _, g := range mon.BlockedIn("events/ratelimiting.(*coalescing)") {
+				if kf := g.KitFrame(); strings.HasSuffix(kf, ".Close") || strings.HasSuffix(kf, ".Add") {
+					continue // a client call in progress (the other, overlapping Close; a racing Add), not a helper
+				}
+				left = append(left, "["+g.State+"] "+g.KitFrame())
 			}
-		}
-		w.rl.Close()
-		close(closeDone)
-	}()
+			closeDone <- left
+		}()
+	}
 	q := mon.Quiesce()
-	if q.OK && q.MutexBlocked == 0 {
+	if q.OK && q.MutexBlocked == 0 && len(closeDone) < nclose {
 		// nobody waits on a mutex, so virtual time can move: give timers a chance
 		time.Sleep(3 * w.c.Max)
 		q = mon.Quiesce()
 	}
-	select {
-	case <-closeDone:
-	default:
-		return fmt.Sprintf("Close did not return: quiescent=%v mutexBlocked=%d frames=%v", q.OK, q.MutexBlocked, q.MutexFrames)
+	if len(closeDone) < nclose {
+		return fmt.Sprintf("Close did not return (%d of %d overlapping calls returned): quiescent=%v mutexBlocked=%d frames=%v", len(closeDone), nclose, q.OK, q.MutexBlocked, q.MutexFrames)
 	}
+	for i := 0; i < nclose; i++ {
+		if left := <-closeDone; len(left) > 0 {
+			w.violation("close-returned-with-helpers-running/"+w.mode, fmt.Sprintf("a Close call returned while goroutines of the limiter were still parked inside it: %v", left))
+		}
+	}
+	rec.Count("shutdown.overlapping_close_calls_checked", nclose)
 	select {
 	case <-w.runDone:
 	default:
@@ -388,7 +400,7 @@ func TestCheck(t *testing.T) {
 	rec = mon.Open("C09")
 	defer rec.Close()
 	rec.Note("rule", "a case is one timeline against the real limiter in a synctest bubble: (lockstep) seeded Add/burst/sleep sequences with sleeps to just before, exactly at and just after the reference window end, compared signal-for-signal with the statement's automaton; (racing) bursts from 2-8 goroutines at shared virtual instants with a prompt or slow consumer, ended by Close or cancel at a seeded instant, judged by the conservation and bounded-progress invariants; (directed) the run loop parked at loop.top / input.recv / timer.recv while Add / Close / cancel are issued. Non-trivial = at least two Adds or a placed operation; distinct = distinct (config, step list).")
-	rec.Note("require", []string{"park.loop.top", "park.input.recv", "park.timer.recv", "lockstep.signals_matched", "lockstep.window_end_exact", "lockstep.cap_fired", "racing.adds", "longchain.adds_in_one_window", "racing.shutdown_with_undelivered_signals", "lockstep.burst_owed_signal", "shutdown.close", "shutdown.cancel", "directed.close_while_parked"})
+	rec.Note("require", []string{"park.loop.top", "park.input.recv", "park.timer.recv", "lockstep.signals_matched", "lockstep.window_end_exact", "lockstep.cap_fired", "racing.adds", "longchain.adds_in_one_window", "racing.shutdown_with_undelivered_signals", "lockstep.burst_owed_signal", "shutdown.close", "shutdown.cancel", "shutdown.overlapping_close_calls_checked", "directed.close_while_parked"})
 	ps := plans()
 	rec.Planned(len(ps))
 	for idx, pl := range ps {
